@@ -202,3 +202,7 @@ package dvid
 //@   requires size[0] > 0 && size[1] > 0 && size[2] > 0
 //@   ensures len(result) == 12
 //@   ensures be32(result, 0) == zyx32(fdiv(p[2], size[2])) && be32(result, 4) == zyx32(fdiv(p[1], size[1])) && be32(result, 8) == zyx32(fdiv(p[0], size[0]))
+
+//@ func Point3d.Equals
+//@   prop C13
+//@   ensures result == (p[0] == p2[0] && p[1] == p2[1] && p[2] == p2[2])
